@@ -472,6 +472,8 @@ def main(tier):
     import c04, guardloop
     rep.attempt(c04.check_adler, rep)          # the Adler-32 kernels' constants and overflow schedule: the zlib trailer is their result
     rep.attempt(guardloop.check, rep, 'ADLER', r'adler32', 2)
+    import crctwins
+    rep.attempt(crctwins.check, rep)      # the gzip trailer is the result of crc32_gzip_refl, whichever twin the CPU gets
     rep.attempt(check_csum_range, rep, mod)
     rep.attempt(check_csum_guard, rep, mod, flags)
     rep.attempt(check_state_after_compare, rep, mod)
